@@ -21,6 +21,13 @@ MUTATORS = {
     "map": ["{a}[\"a\"] = 9", "{a}[\"k\"] = 9", "{a}.clear()", "{a}.erase(\"a\")", "{a}[\"a\"] += 1", "{a} := [\"z\": 1]", "mut_m({a})", "{a}.at(\"a\") = 9"],
     "obj": ["{a}.set(9)", "{a}.inc()", "{a}.v = 9", "{a}.v += 1", "{a} = Obj(9)", "{a} := Obj(9)", "mut_o({a})", "mut_op({a})", "mut_osp({a})", "++{a}.v"],
 }
+# the same operators called as functions (`+=`(a, 1)): dispatch reaches Boxed_Number::oper / the registered assignment directly, not through Equation
+MUTATORS["int"] += ["`=`({a}, 5)", "`+=`({a}, 1)", "`-=`({a}, 1)", "`*=`({a}, 2)", "`/=`({a}, 2)", "`%=`({a}, 2)", "`<<=`({a}, 1)", "`>>=`({a}, 1)", "`|=`({a}, 1)", "`&=`({a}, 1)", "`^=`({a}, 1)", "`++`({a})", "`--`({a})"]
+MUTATORS["double"] += ["`=`({a}, 1.5)", "`+=`({a}, 1.0)", "`-=`({a}, 1.0)", "`*=`({a}, 2.0)", "`/=`({a}, 2.0)", "`++`({a})", "`--`({a})"]
+MUTATORS["bool"] += ["`=`({a}, false)"]
+MUTATORS["string"] += ["`=`({a}, \"q\")", "`+=`({a}, \"x\")"]
+MUTATORS["vector"] += ["`=`({a}, [9])"]
+MUTATORS["obj"] += ["`=`({a}, Obj(9))"]
 MUTATORS["der"] = ["{a}.pset(9)", "{a}.pv = 9", "{a}.pv += 1", "mut_pb({a})", "mut_pbp({a})", "mut_pd({a})", "{a} = PDer(9)", "{a} := PDer(9)", "++{a}.pv"]
 MUTATORS["tmpvector"] = MUTATORS["vector"]
 
